@@ -12,6 +12,91 @@ def _type_text(f, e):
     return src(e)
 
 
+_FLAGV = {}
+
+
+def flag_vars(f):
+    """locals that can only be non-zero when a filter check of one type passed: every assignment is the check of that type or the
+    constant 0  (int need_memcaches = hwloc_filter_check_keep_object_type(topology, HWLOC_OBJ_MEMCACHE); ... need_memcaches = 0;)"""
+    if f.name in _FLAGV:
+        return _FLAGV[f.name]
+    import re
+    vals = {}
+    for n in f.walk():
+        tgt = rhs = None
+        a = assigned(n)
+        if a and lv(a[0]):
+            tgt = lv(a[0])
+            rhs = a[2] if a[1] == "=" else False
+        elif n["k"] == "Var" and n.get("c") and n["c"][0] is not None:
+            tgt, rhs = n["n"], n["c"][0]
+        if tgt is None:
+            continue
+        if rhs is False or rhs is None:
+            vals.setdefault(tgt, []).append(None)
+            continue
+        r = strip(rhs)
+        if cval(r) == 0:
+            vals.setdefault(tgt, []).append(0)
+        elif r["k"] == "Call" and r.get("fn") == "hwloc_filter_check_keep_object_type" and len(args(r)) == 2:
+            vals.setdefault(tgt, []).append(src(strip(args(r)[1])))
+        else:
+            vals.setdefault(tgt, []).append(None)
+        # address-taken: give up
+    for n in f.walk():
+        if n["k"] == "Unary" and n["op"] == "&" and lv(n["c"][0]) in vals:
+            vals[lv(n["c"][0])].append(None)
+    out = {}
+    for v, l in vals.items():
+        ts = set(x for x in l if x != 0)
+        if len(ts) == 1 and None not in ts:
+            out[v] = list(ts)[0]
+    _FLAGV[f.name] = out
+    return out
+
+
+def passed_types(st, f=None):
+    """type texts T for which the must-facts prove that a filter check of T passed: direct test, test of type_filter[T], a flag
+    variable assigned from the check (need_x = hwloc_filter_check_keep_object_type(topology, T); ... if (need_x)), or a filter value
+    fetched by hwloc_topology_get_type_filter(topology, T, &f) and tested != KEEP_NONE"""
+    out = set()
+    asg = {}
+    fetched = {}
+    for fct in st:
+        if fct[0] == "asg":
+            asg[fct[1]] = fct[2]
+        if fct[0] == "call" and fct[1] == "hwloc_topology_get_type_filter" and len(fct[2]) >= 3 and fct[2][2].startswith("&"):
+            fetched[fct[2][2][1:]] = fct[2][1]
+    import re
+    fv = flag_vars(f) if f is not None else {}
+    for fct in st:
+        if fct[0] == "T" and fct[1] in fv:
+            out.add(fv[fct[1]])
+        if fct[0] == "T":
+            m = re.match(r"hwloc_filter_check_keep_object_type\(.*, (\w+)\)$", fct[1])
+            if m:
+                out.add(m.group(1))
+            rhs = asg.get(fct[1])
+            if rhs:
+                m = re.match(r"hwloc_filter_check_keep_object_type\(.*, (\w+)\)$", rhs)
+                if m:
+                    out.add(m.group(1))
+                m = re.match(r"\(?(\w+) != HWLOC_TYPE_FILTER_KEEP_NONE\)?$", rhs)
+                if m and m.group(1) in fetched:
+                    out.add(fetched[m.group(1)])
+        if fct[0] in ("T", "F", "R"):
+            m = re.search(r"type_filter\[(\w+)\]", fct[1])
+            if m:
+                out.add(m.group(1))
+            m = re.match(r"(\w+) != HWLOC_TYPE_FILTER_KEEP_NONE$", fct[1])
+            if m and fct[0] in ("T", "R") and m.group(1) in fetched:
+                out.add(fetched[m.group(1)])
+            m = re.match(r"(\w+) == HWLOC_TYPE_FILTER_KEEP_NONE$", fct[1])
+            if m and fct[0] == "F" and m.group(1) in fetched:
+                out.add(fetched[m.group(1)])
+    return out
+
+
 def creation_sites(chk, P, units, rule="R-FILTER", exceptions=None):
     exceptions = exceptions or {}
     n = 0
@@ -26,7 +111,7 @@ def creation_sites(chk, P, units, rule="R-FILTER", exceptions=None):
     def facts(f):
         m = musts.get(f.name)
         if m is None:
-            m = musts[f.name] = must.Must(f, track_calls=set(CHECKS) | {"hwloc_filter_check_keep_object"}).run()
+            m = musts[f.name] = must.Must(f, track_calls=set(CHECKS) | {"hwloc_filter_check_keep_object", "hwloc_topology_get_type_filter"}).run()
         return m
     for f in allf.values():
         sites = list(f.calls("hwloc_alloc_setup_object"))
@@ -55,6 +140,8 @@ def creation_sites(chk, P, units, rule="R-FILTER", exceptions=None):
                     ok, how = True, "dominated by a test of type_filter[%s]" % T
                 if fct[0] in ("T", "F") and "type_filter[%s]" % T in fct[1]:
                     ok, how = True, "dominated by a test of type_filter[%s]" % T
+            if not ok and T in passed_types(st, f):
+                ok, how = True, "dominated by a passed filter check of %s (through a flag variable or a fetched filter value)" % T
             # wrong-type guard: a filter check for ANOTHER constant type dominates and none for this one
             if not ok:
                 # (b) followed by hwloc_filter_check_keep_object(topology, obj) before insertion: accept if the function calls it on the created object
@@ -83,19 +170,28 @@ def creation_sites(chk, P, units, rule="R-FILTER", exceptions=None):
             ok = False
             how = "no filter check of %s dominates this creation, none follows it, and not every caller of %s checks it" % (T, fname)
             if callers:
-                good = 0
-                for g, cc in callers:
-                    st = facts(g).before.get(cc["id"]) or frozenset()
-                    # type may be a parameter of f: map the argument text
-                    Tg = T
-                    for i, p in enumerate(f.params):
-                        if p["n"] == T and i < len(args(cc)):
-                            Tg = _type_text(g, args(cc)[i])
-                    if Tg in UNFILTERABLE or any(fct[0] == "T" and fct[1].startswith("hwloc_filter_check_keep_object_type(") and fct[1].endswith(", %s)" % Tg) for fct in st) or \
-                       any(fct[0] in ("T", "F", "R") and "type_filter[%s]" % Tg in fct[1] for fct in st):
-                        good += 1
-                if good == len(callers):
-                    ok, how = True, "all %d callers of %s pass the filter check for the type they create" % (len(callers), fname)
+                def covered(fn2, T2, depth, seen):
+                    """every caller of fn2 (in the analysed units) passed the check of T2 at its call site, or is itself covered"""
+                    f2 = allf[fn2]
+                    cs = [(g, cc) for g in allf.values() for cc in g.calls(fn2)]
+                    if not cs or depth > 3:
+                        return False
+                    for g, cc in cs:
+                        st = facts(g).before.get(cc["id"]) or frozenset()
+                        Tg = T2
+                        for i, p in enumerate(f2.params):
+                            if p["n"] == T2 and i < len(args(cc)):
+                                Tg = _type_text(g, args(cc)[i])
+                        if Tg in UNFILTERABLE or Tg in passed_types(st, g) or \
+                           any(fct[0] == "T" and fct[1].startswith("hwloc_filter_check_keep_object_type(") and fct[1].endswith(", %s)" % Tg) for fct in st):
+                            continue
+                        if g.name in seen or not covered(g.name, Tg, depth + 1, seen | {g.name}):
+                            return False
+                    return True
+                if covered(fname, T, 0, {fname}):
+                    ok, how = True, "every call chain into %s passes the filter check of %s before reaching it" % (fname, T)
+            if ok and exc:
+                chk.notes.append("%s: the frozen exception for (%s, %s) is no longer needed: %s" % (rule, fname, T, how))
             if not ok and exc:
                 chk.inst(rule, f, key, True, "frozen exception: %s" % exc, loc=f.loc(c), nontrivial=False)
             else:
